@@ -6,6 +6,7 @@
 package sem
 
 import (
+	"sort"
 	"context"
 	"fmt"
 	"math/rand/v2"
@@ -33,10 +34,12 @@ import (
 )
 
 type pending struct {
-	rec     *httptest.ResponseRecorder
-	release chan struct{}
-	done    chan struct{}
-	isGet   bool
+	rec      *httptest.ResponseRecorder
+	release  chan struct{}
+	done     chan struct{} // the client has its answer
+	finished chan struct{} // the inner handler has returned (later than `done` when the API timeout answered first)
+	isGet    bool
+	answered bool
 }
 
 type world struct {
@@ -45,6 +48,7 @@ type world struct {
 	running int // GET handlers currently inside the inner handler
 	reqs    map[int]*pending
 	cur     *pending // request being started (handlers read it)
+	timeout time.Duration
 }
 
 func (w *world) metric(name string) int {
@@ -71,7 +75,10 @@ func (w *world) obs() string {
 
 func (w *world) exec(line string) string {
 	t := strings.Fields(line)
-	k, _ := strconv.Atoi(t[1])
+	k := 0
+	if len(t) > 1 {
+		k, _ = strconv.Atoi(t[1])
+	}
 	switch t[0] {
 	case "get", "post":
 		method := http.MethodGet
@@ -82,7 +89,7 @@ func (w *world) exec(line string) string {
 		if t[2] == "quick" {
 			path = "/verif/quick"
 		}
-		p := &pending{rec: httptest.NewRecorder(), release: make(chan struct{}), done: make(chan struct{}), isGet: method == http.MethodGet}
+		p := &pending{rec: httptest.NewRecorder(), release: make(chan struct{}), done: make(chan struct{}), finished: make(chan struct{}), isGet: method == http.MethodGet}
 		w.reqs[k] = p
 		req := httptest.NewRequest(method, path, nil)
 		go func() {
@@ -101,9 +108,32 @@ func (w *world) exec(line string) string {
 		p := w.reqs[k]
 		close(p.release)
 		<-p.done
+		<-p.finished
 		synctest.Wait()
 		delete(w.reqs, k)
 		return fmt.Sprintf("%d %s", p.rec.Code, w.obs())
+	case "timeout":
+		// let the API timeout pass: every request still inside its handler is answered by the timeout handler,
+		// its handler keeps running (and keeps its concurrency slot) until it is released
+		time.Sleep(w.timeout + time.Millisecond)
+		synctest.Wait()
+		var ks []int
+		for k, p := range w.reqs {
+			if !p.answered {
+				select {
+				case <-p.done:
+					p.answered = true
+					ks = append(ks, k)
+				default:
+				}
+			}
+		}
+		sort.Ints(ks)
+		parts := make([]string, len(ks))
+		for i, k := range ks {
+			parts[i] = fmt.Sprintf("%d:%d", k, w.reqs[k].rec.Code)
+		}
+		return hx.Join(parts, ",") + " " + w.obs()
 	}
 	panic("bad op " + line)
 }
@@ -112,21 +142,28 @@ func runCase(t *testing.T, tr *hx.Trace, id int, r *rand.Rand, script []string) 
 	synctest.Test(t, func(t *testing.T) {
 		var header string
 		capN := 0
+		timeout := time.Duration(0)
 		if script != nil {
 			header = script[0]
 			for _, f := range strings.Fields(header) {
 				if v, ok := strings.CutPrefix(f, "cap="); ok {
 					capN, _ = strconv.Atoi(v)
 				}
+				if v, ok := strings.CutPrefix(f, "timeout="); ok {
+					timeout = time.Duration(hx.Atoi64(v))
+				}
 			}
 		} else {
 			capN = 1 + r.IntN(4)
-			header = fmt.Sprintf("case %d cap=%d", id, capN)
+			if r.IntN(2) == 0 {
+				timeout = 5 * time.Second
+			}
+			header = fmt.Sprintf("case %d cap=%d timeout=%d", id, capN, int64(timeout))
 		}
 		tr.Linef("%s", header)
 
 		ctx, cancel := context.WithCancel(context.Background())
-		w := &world{reg: prometheus.NewRegistry(), reqs: map[int]*pending{}}
+		w := &world{reg: prometheus.NewRegistry(), reqs: map[int]*pending{}, timeout: timeout}
 		alerts, err := mem.NewAlerts(ctx, time.Hour, 0, nil, promslog.NewNopLogger(), eventrecorder.NopRecorder(), prometheus.NewRegistry(), nil)
 		if err != nil {
 			panic(err)
@@ -143,6 +180,7 @@ func runCase(t *testing.T, tr *hx.Trace, id int, r *rand.Rand, script []string) 
 				return nil, nil, nil
 			},
 			Concurrency: capN,
+			Timeout:     timeout,
 			Registry:    w.reg,
 			RequestDuration: prometheus.NewHistogramVec(prometheus.HistogramOpts{Name: "verif_request_duration"},
 				[]string{"handler", "method", "code"}),
@@ -162,6 +200,7 @@ func runCase(t *testing.T, tr *hx.Trace, id int, r *rand.Rand, script []string) 
 				w.running--
 			}
 			rw.WriteHeader(http.StatusOK)
+			close(p.finished)
 		}
 		quick := func(rw http.ResponseWriter, _ *http.Request) { rw.WriteHeader(http.StatusOK) }
 		rt.Get("/verif/block/:k", block)
@@ -174,6 +213,7 @@ func runCase(t *testing.T, tr *hx.Trace, id int, r *rand.Rand, script []string) 
 			for _, p := range w.reqs {
 				close(p.release)
 				<-p.done
+				<-p.finished
 			}
 			cancel()
 			alerts.Close()
@@ -212,6 +252,8 @@ func runCase(t *testing.T, tr *hx.Trace, id int, r *rand.Rand, script []string) 
 			case x < 8:
 				do(fmt.Sprintf("post %d block", next))
 				next++
+			case x < 9 && timeout > 0 && len(open) > 0:
+				do("timeout")
 			default:
 				if len(open) > 0 {
 					do(fmt.Sprintf("release %d", hx.Pick(r, open)))
